@@ -32,6 +32,9 @@ def run(c):
         "the verifPoint call sites in cache.go are the patch repo-patches/loadercache/0001 (add-only); without them the harness "
         "cannot observe the steps and the check reports the correspondence as broken"]
     c.coverage["rule"] = (
+        "the hook-free streams also run on FROZEN caches (Value.Freeze before use, as Starlark does to a module-level cache) and "
+        "end to end through a real project (module-level Cache(), target bodies calling cache.once with a counting callable from "
+        "LoadOptions.Builtins, built with Project.Run; per key <=1 invocation per build, one value); "
         "hook-free judge first (VerifHook unset; only Cache().once is used, also to observe the cache's content): every sequential "
         "call sequence runs on a fresh cache in its own goroutine under a timeout (a wedged cache is abandoned and reported as a hang with the "
         "sequence as replay), with int results and with results drawn from None, False, 0, \"\", (), [], a fresh list, 1, \"v<key>\"; "
@@ -75,6 +78,11 @@ def run(c):
                 sample={"stream": "VerifHook unset, public builtin only: all %d sequential call sequences of length <=4 over 2 keys x "
                                   "ok/fail, then %d free-running concurrent configurations; same judge"
                                   % (stats.get("nohook_sequential", 0), stats.get("nohook_concurrent", 0))})
+        c.count("cache.judge-project", stats.get("project_builds", 0),
+                sample={"stream": "real projects built with Project.Run: %d builds, %d once calls from module level and target bodies"
+                                  % (stats.get("project_builds", 0), stats.get("project_once_calls", 0))})
+        if not stats.get("project_builds") or not stats.get("nohook_sequential_frozen"):
+            c.broken.append("judge streams cache.nohook-frozen / cache.project did not run")
         c.count("cache.judge", stats.get("judged_runs", 0),
                 sample={"judge": "per key: successful callable invocations <= 1; every value returned for the key is that "
                                  "invocation's; an error is returned only by a call whose own callable failed; a key whose "
